@@ -155,3 +155,45 @@ M('barrier-ge', ['C35'], (RT, "            while self._pc_level > self._program_
 M('barrier-hop-component', ['C35'], (RT, "            while self._pc_level > self._program_counter[1]:\n                await asyncio.sleep(0)", "            while self._pc_level > self._program_counter[0]:\n                await asyncio.sleep(0)"))
 M('barrier-inverted-option', ['C35'], (RT, "        if not self.options.no_async:\n            while self._pc_level", "        if self.options.no_async:\n            while self._pc_level"))
 M('lost-no-unset', ['C35'], (AC, "        self.runtime.unset_protocol(self.peer_pid)\n\n    def close_connection", "        pass\n\n    def close_connection"))
+
+# ---------------------------------------------------------------- SS / MK
+M('output-xcoord-shift', ['C07', 'C11', 'C01'], (RT, "points = [((self.pid - t + j) % m + 1, unmarshal(shares[j])) for j in range(t)]", "points = [((self.pid - t + j + 1) % m, unmarshal(shares[j])) for j in range(t)]"))
+M('output-own-xcoord', ['C07', 'C11', 'C01'], (RT, "            points.append((self.pid + 1, x))\n            y = recombine(field, points)\n            if shape is None:\n                y = [field(a) for a in y]\n            elif self.options.mix32_64bit:\n                y = [field.array(y).reshape(shape)]\n            else:\n                y = [y.reshape(shape)]\n            if issubclass(sftype",
+                                    "            points.append((self.pid, x))\n            y = recombine(field, points)\n            if shape is None:\n                y = [field(a) for a in y]\n            elif self.options.mix32_64bit:\n                y = [field.array(y).reshape(shape)]\n            else:\n                y = [y.reshape(shape)]\n            if issubclass(sftype"))
+M('output-send-le-lt', ['C07', 'C11', 'C01'], (RT, "            if 0 < (peer_pid - self.pid) % m <= t:", "            if 0 < (peer_pid - self.pid) % m < t:"))
+M('output-recv-other-side', ['C07', 'C11', 'C01'], (RT, "            shares = [self._receive_message((self.pid - t + j) % m) for j in range(t)]", "            shares = [self._receive_message((self.pid + 1 + j) % m) for j in range(t)]"))
+M('reshare-guard-nomod', ['C07', 'C11', 'C01'], (RT, "        if (self.pid - uci) % m <= 2*t:", "        if self.pid - uci <= 2*t:"))
+M('reshare-window-short', ['C07', 'C11', 'C01'], (RT, "        for peer_pid in range(uci, uci + 2*t+1):", "        for peer_pid in range(uci, uci + 2*t):"))
+M('reshare-point-offbyone', ['C07', 'C11', 'C01'], (RT, "        points = [((uci + j) % m + 1, unmarshal(s)) for j, s in enumerate(shares) if s is not None]", "        points = [((uci + j + 1) % m + 1, unmarshal(s)) for j, s in enumerate(shares) if s is not None]"))
+M('distribute-slot-otherpid', ['C07'], (RT, "                    if other_pid == self.pid:\n                        shares[i] = data", "                    if other_pid == self.pid:\n                        shares[other_pid] = data"))
+M('transfer-cross-swapped', ['C07'], (RT, "            my_senders = senders if self.pid in receivers else []\n            my_receivers = receivers if self.pid in senders else []", "            my_senders = senders if self.pid in senders else []\n            my_receivers = receivers if self.pid in receivers else []"))
+M('transfer-receivers-falsy', ['C19', 'C07'], (RT, "            if receivers is None:\n                receivers = range(m)  # default\n            receivers = [receivers] if isinstance(receivers, int) else list(receivers)\n            my_senders", "            if not receivers:\n                receivers = range(m)  # default\n            receivers = [receivers] if isinstance(receivers, int) else list(receivers)\n            my_senders"))
+M('output-send-all', ['C19', 'C07'], (RT, "        for peer_pid in receivers:\n            if 0 < (peer_pid - self.pid) % m <= t:", "        for peer_pid in range(m):\n            if 0 < (peer_pid - self.pid) % m <= t:"))
+M('secflt-output-all', ['C19'], ('sectypes', "        x_s = await runtime.output(x_s, receivers, threshold)", "        x_s = await runtime.output(x_s, threshold=threshold)"))
+M('secgrp-output-all', ['C19'], ('secgroups', "        y = await runtime.output(x, receivers, threshold)", "        y = await runtime.output(x, threshold=threshold)"))
+M('secflt-leader-any', ['C19'], ('sectypes', "            s_0 = runtime.input(s_0, senders=leader)", "            s_0 = runtime.input(s_0, senders=0)"))
+M('revert-fix-transfer-none', ['C07'], (RT, "            outdata = outdata[0] if outdata else None  # NB: None for parties not receiving", "            outdata = outdata[0]"))
+M('split-coeffs-hoisted', ['C13', 'C14', 'C12'], (TH, "    for h, s_h in enumerate(s):\n        if T_is_field:\n            s_h = s_h.value\n        c = [secrets.randbelow(order) for _ in range(t)]\n",
+                                                  "    c = [secrets.randbelow(order) for _ in range(t)]\n    for h, s_h in enumerate(s):\n        if T_is_field:\n            s_h = s_h.value\n"))
+M('split-coeffs-short', ['C13', 'C14', 'C12'], (TH, "        c = [secrets.randbelow(order) for _ in range(t)]", "        c = [secrets.randbelow(order) for _ in range(t - 1)]"))
+M('split-coeffs-small', ['C13', 'C14'], (TH, "        c = [secrets.randbelow(order) for _ in range(t)]", "        c = [secrets.randbelow(2) for _ in range(t)]"))
+M('split-horner-wrong', ['C13', 'C12'], (TH, "                y = (y + c_j) * i1\n            shares[i1-1][h]", "                y = y * i1 + c_j\n            shares[i1-1][h]"), why='last coefficient not multiplied by x: constant term = s + c[t-1]')
+M('split-row-shift', ['C12'], (TH, "            shares[i1-1][h] = (y + s_h) % p", "            shares[i1 % m][h] = (y + s_h) % p"))
+M('npsplit-order-modulus', ['C13', 'C14'], (TH, "    _randbelow = secrets.randbelow\n    order = field.order", "    _randbelow = secrets.randbelow\n    order = int(p)"))
+M('npsplit-vander-degree', ['C13', 'C12', 'C14'], (TH, "N=t+1, increasing=True)", "N=t, increasing=True)"))
+M('npsplit-points-int', ['C12'], (TH, "np.array([tp(i) for i in range(1, m+1)], dtype='O')", "np.arange(1, m+1, dtype='O')"))
+M('distribute-options-threshold', ['C14', 'C11'], (RT, "                t = self.threshold\n                m = len(self.parties)\n                if shape is not None:", "                t = self.options.threshold\n                m = len(self.parties)\n                if shape is not None:"))
+M('reshare-threshold-half', ['C14', 'C11'], (RT, "            shares = random_split(field, x, t, m)\n            for peer_pid, data in enumerate(shares):", "            shares = random_split(field, x, t // 2, m)\n            for peer_pid, data in enumerate(shares):"))
+M('distribute-send-raw', ['C14'], (RT, "                    if other_pid == self.pid:\n                        shares[i] = data\n                    else:\n                        self._send_message(other_pid, data)", "                    if other_pid == self.pid:\n                        shares[i] = data\n                    else:\n                        self._send_message(other_pid, marshal(x))"))
+M('lagrange-sign', ['C12'], (TH, "                coefficient_d *= (x_i - x_j)", "                coefficient_d *= (x_j - x_i)"))
+M('lagrange-guard', ['C12'], (TH, "            if i != j:\n                coefficient_n", "            if i < j:\n                coefficient_n"))
+M('fS-points-noshift', ['C15', 'C12'], (TH, "    points = [(0, [1])] + [(x+1, [0]) for x in range(m) if x not in S]", "    points = [(0, [1])] + [(x, [0]) for x in range(m) if x not in S]"))
+M('zero-degree-d', ['C15'], (TH, "        d = m - len(S)\n        prl = prf_S(uci, n * d)", "        d = len(S) - 1\n        prl = prf_S(uci, n * d)"))
+M('zero-horner-short', ['C15', 'C18'], (TH, "            for j in range(d):\n                y = (y + prl[h * d + j]) * i1", "            for j in range(1, d):\n                y = (y + prl[h * d + j]) * i1"))
+M('npzero-powers', ['C15'], (TH, "    i1s = np.array([vtype(i+1)**j for j in range(1, d+1)], dtype='O')", "    i1s = np.array([vtype(i+1)**j for j in range(d)], dtype='O')"))
+M('keyreader-slice', ['C15', 'C16', 'C10'], (RT, "                    self._prss_keys[subset] = data[len_packet:len_packet + 16]", "                    self._prss_keys[subset] = data[len_packet:16]"))
+M('secgrp-lambda-index', ['C28'], ('secgroups', "    lambda_i = _recombination_vector(field, range(1, m+1), 0)[runtime.pid]\n    x_i = await runtime.gather(x)\n    e_i = int(lambda_i * x_i)", "    lambda_i = _recombination_vector(field, range(m), 0)[runtime.pid]\n    x_i = await runtime.gather(x)\n    e_i = int(lambda_i * x_i)"))
+B('reshare-window-reordered', (RT, "        for peer_pid in range(uci, uci + 2*t+1):", "        for peer_pid in range(uci, 2*t + uci + 1):"))
+B('output-guard-equivalent', (RT, "            if 0 < (peer_pid - self.pid) % m <= t:", "            if 1 <= (peer_pid - self.pid) % m <= t:"))
+B('split-local-rename', (TH, "        c = [secrets.randbelow(order) for _ in range(t)]\n        # polynomial f(X) = s[h] + c[t-1] X + c[t-2] X^2 + ... + c[0] X^t\n        for i1 in range(1, m+1):\n            y = _0\n            for c_j in c:",
+                         "        coefs = [secrets.randbelow(order) for _ in range(t)]\n        # polynomial f(X) = s[h] + c[t-1] X + c[t-2] X^2 + ... + c[0] X^t\n        for i1 in range(1, m+1):\n            y = _0\n            for c_j in coefs:"))
